@@ -2,16 +2,31 @@
 
 package engine
 
+// C14 — retention removes only data that has expired.
+//
+// Bounded exhaustive exploration of histories over the REAL retention code under a virtual clock
+// (testing/synctest): services/retention.Service.handle (through the accessor VerifHandle, wired in
+// c14_glue_test.go) -> real EngineImpl (UpdateShardDurationInfo, ExpiredShards / shard.IsExpired /
+// nilShardIsExpired, DeleteShard, ExpiredIndexes, DeleteIndex) with real shards on disk, and a real
+// meta.Data catalogue (CreateDatabase, CreateMeasurement, CreateShardGroup, UpdateRetentionPolicy,
+// DurationInfos + its wire codec, DeleteShardGroup, DeleteIndexGroup, PruneGroups) behind a thin
+// MetaClient adapter (c14Meta) that does what ts-meta's store does for these commands.
+// See /verif/notes/C14.md.
+
 import (
 	"fmt"
 	"os"
 	"path/filepath"
-	"runtime"
+	"runtime/debug"
 	"runtime/pprof"
+	"sort"
+	"strings"
+	"sync"
 	"testing"
 	"testing/synctest"
 	"time"
 
+	"github.com/openGemini/openGemini/engine/index/tsi"
 	"github.com/openGemini/openGemini/lib/config"
 	"github.com/openGemini/openGemini/lib/errno"
 	"github.com/openGemini/openGemini/lib/interruptsignal"
@@ -25,10 +40,12 @@ import (
 	"github.com/openGemini/openGemini/lib/util/lifted/vm/protoparser/influx"
 	kit "github.com/openGemini/openGemini/lib/verifkit"
 	"go.uber.org/zap"
-	"golang.org/x/sys/unix"
 	"google.golang.org/protobuf/proto"
 )
 
+// ---- wiring to the real service (set by c14_glue_test.go, package engine_test) ------------------
+
+// VerifC14MetaClient is the method set of retention.Service.MetaClient.
 type VerifC14MetaClient interface {
 	PruneGroupsCommand(shardGroup bool, id uint64) error
 	GetShardDurationInfo(index uint64) (*meta.ShardDurationResponse, error)
@@ -40,19 +57,48 @@ type VerifC14MetaClient interface {
 	GetExpiredIndexes() []meta.ExpiredIndexInfos
 }
 
-var VerifC14NewService func(mc VerifC14MetaClient, e *EngineImpl, interval time.Duration) func()
+// VerifC14Engine is the method set of retention.Service.Engine.
+type VerifC14Engine interface {
+	DeleteIndex(db string, ptId uint32, indexID uint64) error
+	UpdateShardDurationInfo(info *meta.ShardDurationInfo, nilShardMap *map[uint64]*meta.ShardDurationInfo) error
+	UpdateIndexDurationInfo(info *meta.IndexDurationInfo, nilIndexMap *map[uint64]*meta.IndexDurationInfo) error
+	ExpiredShards(nilShardMap *map[uint64]*meta.ShardDurationInfo) []*meta.ShardIdentifier
+	ExpiredIndexes(nilIndexMap *map[uint64]*meta.IndexDurationInfo) []*meta.IndexIdentifier
+	ExpiredCacheIndexes() []*meta.IndexIdentifier
+	DeleteShard(db string, ptId uint32, shardID uint64) error
+	ClearIndexCache(db string, ptId uint32, indexID uint64) error
+}
+
+// VerifC14NewService builds a real retention.Service and returns its handle().
+var VerifC14NewService func(mc VerifC14MetaClient, e VerifC14Engine, interval time.Duration) func()
 
 const (
-	c14DB  = "db0"
-	c14RP  = "rp0"
-	c14Mst = "m"
-	c14G   = time.Hour
+	c14DB       = "db0"
+	c14RP       = "rp0"
+	c14Mst      = "m"
+	c14G        = time.Hour        // shard-group duration (the smallest the catalogue accepts)
+	c14Interval = 30 * time.Minute // retention check interval (the shipped default)
 )
+
+var c14Durs = []time.Duration{0, c14G / 2, c14G, 2 * c14G}
+var c14DurNames = []string{"0", "G/2", "G", "2G"}
+
+func c14DurIndex(name string) int {
+	for i, n := range c14DurNames {
+		if n == name {
+			return i
+		}
+	}
+	return -1
+}
+
+// ---- MetaClient adapter: what ts-meta's store does for the commands the service sends ------------
 
 type c14Meta struct {
 	data *meta.Data
 }
 
+// every applied command advances the catalogue index (raft log index in the real store)
 func (m *c14Meta) bump() { m.data.Index++ }
 
 func (m *c14Meta) dbPts() map[string][]uint32 { return map[string][]uint32{c14DB: {0}} }
@@ -61,6 +107,8 @@ func (m *c14Meta) PruneGroupsCommand(shardGroup bool, id uint64) error {
 	defer m.bump()
 	return m.data.PruneGroups(shardGroup, id)
 }
+
+// store.getDurationInfo: index guard, Data.DurationInfos, wire codec both ways
 func (m *c14Meta) GetShardDurationInfo(index uint64) (*meta.ShardDurationResponse, error) {
 	if m.data.Index < index {
 		return nil, errno.NewError(errno.DataIsOlder)
@@ -72,6 +120,7 @@ func (m *c14Meta) GetShardDurationInfo(index uint64) (*meta.ShardDurationRespons
 	r := &meta.ShardDurationResponse{}
 	return r, r.UnmarshalBinary(b)
 }
+
 func (m *c14Meta) GetIndexDurationInfo(index uint64) (*meta.IndexDurationResponse, error) {
 	if m.data.Index < index {
 		return nil, errno.NewError(errno.DataIsOlder)
@@ -83,23 +132,203 @@ func (m *c14Meta) GetIndexDurationInfo(index uint64) (*meta.IndexDurationRespons
 	r := &meta.IndexDurationResponse{}
 	return r, r.UnmarshalBinary(b)
 }
+
 func (m *c14Meta) DeleteShardGroup(database, policy string, id uint64, deleteType int32) error {
 	defer m.bump()
 	return m.data.DeleteShardGroup(database, policy, id, 0, deleteType)
 }
+
 func (m *c14Meta) DeleteIndexGroup(database, policy string, id uint64) error {
 	defer m.bump()
 	return m.data.DeleteIndexGroup(database, policy, id)
 }
+
 func (m *c14Meta) DelayDeleteShardGroup(database, policy string, id uint64, deletedAt time.Time, deleteType int32) error {
-	panic("logkeeper path not used")
+	panic("C14: shared-storage (logkeeper) path is not part of this harness")
 }
 func (m *c14Meta) GetExpiredShards() ([]meta.ExpiredShardInfos, []meta.ExpiredShardInfos) {
-	panic("logkeeper path not used")
+	panic("C14: shared-storage (logkeeper) path is not part of this harness")
 }
-func (m *c14Meta) GetExpiredIndexes() []meta.ExpiredIndexInfos { panic("logkeeper path not used") }
+func (m *c14Meta) GetExpiredIndexes() []meta.ExpiredIndexInfos {
+	panic("C14: shared-storage (logkeeper) path is not part of this harness")
+}
+
+// ---- recording pass-through around the real engine ------------------------------------------------
+
+type c14DelRec struct {
+	Kind string // "shard" | "index"
+	ID   uint64
+	At   time.Time
+	Err  string
+}
+
+// c14Engine embeds the real *EngineImpl (every method of the service's Engine interface is the real
+// one); the overridden methods only record virtual time / arguments / results around the real call.
+type c14Engine struct {
+	*EngineImpl
+	w           *c14World
+	called      bool
+	expiredAt   time.Time
+	expired     []uint64
+	nilIDs      []uint64
+	idxExpired  []uint64
+	dels        []c14DelRec
+	seenDur     map[uint64]time.Duration // shard id -> duration handed to UpdateShardDurationInfo in this run
+	withWriters bool
+}
+
+func (r *c14Engine) reset(withWriters bool) {
+	r.called, r.expired, r.nilIDs, r.idxExpired, r.dels = false, nil, nil, nil, nil
+	r.seenDur = map[uint64]time.Duration{}
+	r.withWriters = withWriters
+}
+
+func (r *c14Engine) UpdateShardDurationInfo(info *meta.ShardDurationInfo, nilShardMap *map[uint64]*meta.ShardDurationInfo) error {
+	r.seenDur[info.Ident.ShardID] = info.DurationInfo.Duration
+	return r.EngineImpl.UpdateShardDurationInfo(info, nilShardMap)
+}
+
+func (r *c14Engine) ExpiredShards(nilShardMap *map[uint64]*meta.ShardDurationInfo) []*meta.ShardIdentifier {
+	if r.withWriters {
+		r.w.startWriters()
+	}
+	r.called = true
+	r.expiredAt = time.Now()
+	res := r.EngineImpl.ExpiredShards(nilShardMap)
+	for _, id := range res {
+		r.expired = append(r.expired, id.ShardID)
+	}
+	for id := range *nilShardMap {
+		r.nilIDs = append(r.nilIDs, id)
+	}
+	sort.Slice(r.expired, func(i, j int) bool { return r.expired[i] < r.expired[j] })
+	sort.Slice(r.nilIDs, func(i, j int) bool { return r.nilIDs[i] < r.nilIDs[j] })
+	return res
+}
+
+func (r *c14Engine) ExpiredIndexes(nilIndexMap *map[uint64]*meta.IndexDurationInfo) []*meta.IndexIdentifier {
+	res := r.EngineImpl.ExpiredIndexes(nilIndexMap)
+	for _, id := range res {
+		r.idxExpired = append(r.idxExpired, id.Index.IndexID)
+	}
+	sort.Slice(r.idxExpired, func(i, j int) bool { return r.idxExpired[i] < r.idxExpired[j] })
+	return res
+}
+
+func (r *c14Engine) DeleteShard(db string, ptId uint32, shardID uint64) error {
+	err := r.EngineImpl.DeleteShard(db, ptId, shardID)
+	r.dels = append(r.dels, c14DelRec{"shard", shardID, time.Now(), c14ErrStr(err)})
+	return err
+}
+
+func (r *c14Engine) DeleteIndex(db string, ptId uint32, indexID uint64) error {
+	err := r.EngineImpl.DeleteIndex(db, ptId, indexID)
+	r.dels = append(r.dels, c14DelRec{"index", indexID, time.Now(), c14ErrStr(err)})
+	return err
+}
+
+func c14ErrStr(err error) string {
+	if err == nil {
+		return ""
+	}
+	return err.Error()
+}
+
+// ---- reference model ------------------------------------------------------------------------------
+
+// c14Group is the model's view of one shard group (one shard: the harness cluster has one partition).
+type c14Group struct {
+	Start, End time.Time
+	Gen        int // n-th group created for this range
+	SGID       uint64
+	ShardID    uint64
+	IndexID    uint64
+	IGID       uint64
+	Loaded     bool // the shard was created on this node (else: catalogue only = "not loaded")
+	DataPath   string
+	WalPath    string
+	Points     map[int64]bool // acknowledged points (timestamps)
+
+	ExpiredRuns int  // consecutive retention runs at which the model found it expired
+	Doomed      bool // a deletion of (a part of) it was observed in a run at which it was expired: legitimate
+	Gone        bool // nothing of it is left in catalogue, engine, storage
+}
+
+func (g *c14Group) name(w *c14World) string {
+	return fmt.Sprintf("sg%d/sh%d[%s,%s)#%d", g.SGID, g.ShardID, c14Rel(w.t0, g.Start), c14Rel(w.t0, g.End), g.Gen)
+}
+
+// c14Rel prints an instant relative to the origin of the history in units of G and nanoseconds.
+func c14Rel(t0, t time.Time) string {
+	d := t.Sub(t0)
+	sign := ""
+	if d < 0 {
+		sign = "-"
+		d = -d
+	}
+	h := d / c14G
+	rest := d % c14G
+	switch {
+	case rest == 0:
+		return fmt.Sprintf("%s%dG", sign, h)
+	case rest > c14G/2 && sign == "":
+		return fmt.Sprintf("%dG-%s", h+1, c14G-rest)
+	case sign == "":
+		return fmt.Sprintf("%dG+%s", h, rest)
+	default:
+		return fmt.Sprintf("-(%dG+%s)", h, rest)
+	}
+}
+
+type c14Fail struct {
+	Kind, Key, Detail string
+}
+
+type c14World struct {
+	dir     string
+	data    *meta.Data
+	mc      *c14Meta
+	eng     *EngineImpl
+	rec     *c14Engine
+	handle  func()
+	t0      time.Time
+	mstName string
+	dm      time.Duration // the duration in force as far as the user was told (model)
+	durLog  []time.Duration
+	groups  []*c14Group
+	runs    int
+	hist    []string
+	root    string
+	fail    *c14Fail
+	lastRun string // diagnostics of the last retention run
+	// concurrent writers of an Hw step
+	wwg     sync.WaitGroup
+	wmu     sync.Mutex
+	wacks   map[uint64][]int64 // shard id -> acknowledged timestamps
+	werrs   map[uint64]int
+	wpanics []string
+	wseq    int64
+}
 
 var c14LoadCtx *metaclient.LoadCtx
+
+func c14NewData(d time.Duration) (*meta.Data, error) {
+	data := &meta.Data{PtNumPerNode: 1}
+	if _, err := data.CreateDataNode("127.0.0.1:8400", "127.0.0.1:8401", "", ""); err != nil {
+		return nil, err
+	}
+	rpi := meta.NewRetentionPolicyInfo(c14RP)
+	rpi.Duration = d
+	rpi.ShardGroupDuration = c14G
+	if err := data.CreateDatabase(c14DB, rpi, nil, false, 1, nil); err != nil {
+		return nil, err
+	}
+	if err := data.CreateMeasurement(c14DB, c14RP, c14Mst,
+		&proto2.ShardKeyInfo{ShardKey: []string{"host"}, Type: proto.String(influxql.HASH)}, 0, nil, config.TSSTORE, nil, nil, nil); err != nil {
+		return nil, err
+	}
+	return data, nil
+}
 
 func c14NewEngine(dir string, data *meta.Data) *EngineImpl {
 	eng := &EngineImpl{
@@ -125,121 +354,1107 @@ func c14NewEngine(dir string, data *meta.Data) *EngineImpl {
 	eng.loadCtx = c14LoadCtx
 	eng.CreateDBPT(c14DB, 0, false)
 	eng.DBPartitions[c14DB][0].logger = eng.log
-	stat.StoreTaskInstance = stat.NewStoreTaskDuration(false)
 	return eng
 }
 
-func c14NewData(d time.Duration) (*meta.Data, error) {
-	data := &meta.Data{PtNumPerNode: 1}
-	if _, err := data.CreateDataNode("127.0.0.1:8400", "127.0.0.1:8401", "", ""); err != nil {
-		return nil, err
-	}
-	rpi := meta.NewRetentionPolicyInfo(c14RP)
-	rpi.Duration = d
-	rpi.ShardGroupDuration = c14G
-	if err := data.CreateDatabase(c14DB, rpi, nil, false, 1, nil); err != nil {
-		return nil, err
-	}
-	if err := data.CreateMeasurement(c14DB, c14RP, c14Mst,
-		&proto2.ShardKeyInfo{ShardKey: []string{"host"}, Type: proto.String(influxql.HASH)}, 0, nil, config.TSSTORE, nil, nil, nil); err != nil {
-		return nil, err
-	}
-	return data, nil
+// c14AlignClock sleeps (virtual time) to the next multiple of G so that every history starts on a
+// shard-group boundary; the caller has no open shards, so this is cheap.
+func c14AlignClock() time.Time {
+	now := time.Now()
+	next := now.Truncate(c14G).Add(c14G)
+	time.Sleep(next.Sub(now))
+	return time.Now()
 }
+
+// c14NewWorld builds catalogue + engine + service for one history. d0: initial policy duration;
+// init: "open" (a point at t0 written through the store path) or "cat" (shard group only in the
+// catalogue: the shard is not loaded on this node).
+func c14NewWorld(dir string, d0 int, init string) (*c14World, error) {
+	_ = os.RemoveAll(dir)
+	if err := os.MkdirAll(dir, 0o755); err != nil {
+		return nil, err
+	}
+	w := &c14World{dir: dir, root: c14DurNames[d0] + "/" + init}
+	w.t0 = c14AlignClock()
+	data, err := c14NewData(c14Durs[d0])
+	if err != nil {
+		return w, err
+	}
+	w.data = data
+	w.dm = c14Durs[d0]
+	w.durLog = []time.Duration{w.dm}
+	msti, err := data.Measurement(c14DB, c14RP, c14Mst)
+	if err != nil {
+		return w, err
+	}
+	w.mstName = msti.Name
+	w.mc = &c14Meta{data: data}
+	w.eng = c14NewEngine(dir, data)
+	w.rec = &c14Engine{EngineImpl: w.eng, w: w}
+	w.rec.reset(false)
+	w.handle = VerifC14NewService(w.mc, w.rec, c14Interval)
+	if err := w.write(w.t0, init == "open"); err != nil {
+		return w, fmt.Errorf("root write: %w", err)
+	}
+	return w, nil
+}
+
+func (w *c14World) close() {
+	if w.eng != nil {
+		_ = w.eng.Close()
+		w.eng = nil
+	}
+	_ = os.RemoveAll(w.dir)
+}
+
+func (w *c14World) rp() *meta.RetentionPolicyInfo {
+	rp, err := w.data.RetentionPolicy(c14DB, c14RP)
+	if err != nil || rp == nil {
+		panic(fmt.Sprintf("C14 harness: retention policy vanished: %v", err))
+	}
+	return rp
+}
+
+func (w *c14World) dbpt() *DBPTInfo { return w.eng.DBPartitions[c14DB][0] }
+
+func c14Rows(mst string, ts int64) ([]influx.Row, []byte) {
+	row := influx.Row{Name: mst, Timestamp: ts}
+	row.Fields = append(row.Fields, influx.Field{Key: "f", Type: influx.Field_Type_Float, NumValue: 1.5})
+	row.Tags = influx.PointTags{{Key: "host", Value: "a"}}
+	row.UnmarshalIndexKeys(nil)
+	row.UnmarshalShardKeyByTag(nil)
+	rows := []influx.Row{row}
+	buf, err := influx.FastMarshalMultiRows(nil, rows)
+	if err != nil {
+		panic(err)
+	}
+	return rows, buf
+}
+
+// storeWrite is app/ts-store/storage.Storage.Write: write; on ShardNotFound fetch the shard's time
+// range + duration from the catalogue (Client.GetShardRangeInfo = RetentionPolicyInfo.TimeRangeInfo
+// over the wire codec), create the shard, write again.
+func (w *c14World) storeWrite(shardID uint64, ts int64) error {
+	rows, buf := c14Rows(w.mstName, ts)
+	err := w.eng.WriteRows(c14DB, c14RP, 0, shardID, rows, buf, nil)
+	if err == nil || !errno.Equal(err, errno.ShardNotFound) {
+		return err
+	}
+	tri := w.rp().TimeRangeInfo(shardID)
+	if tri == nil {
+		return errno.NewError(errno.ShardMetaNotFound, shardID)
+	}
+	b, err := tri.MarshalBinary()
+	if err != nil {
+		return err
+	}
+	tri2 := &meta.ShardTimeRangeInfo{}
+	if err := tri2.UnmarshalBinary(b); err != nil {
+		return err
+	}
+	msti, err := w.data.Measurement(c14DB, c14RP, c14Mst)
+	if err != nil {
+		return err
+	}
+	if err := w.eng.CreateShard(c14DB, c14RP, 0, shardID, tri2, msti); err != nil {
+		return err
+	}
+	rows, buf = c14Rows(w.mstName, ts)
+	return w.eng.WriteRows(c14DB, c14RP, 0, shardID, rows, buf, nil)
+}
+
+// write: the coordinator asks the catalogue for the shard group of the timestamp (created on demand
+// by the real CreateShardGroup), then (load) the store path writes the point. load=false leaves the
+// shard unloaded on this node (catalogue only).
+func (w *c14World) write(ts time.Time, load bool) error {
+	start := ts.Truncate(c14G)
+	end := start.Add(c14G)
+	// model: the live group of this range, else a new generation
+	var g *c14Group
+	gen := 0
+	for _, x := range w.groups {
+		if x.Start.Equal(start) {
+			gen++
+			if !x.Doomed && !x.Gone {
+				g = x
+			}
+		}
+	}
+	if err := w.data.CreateShardGroup(c14DB, c14RP, ts, util.Hot, config.TSSTORE, 0); err != nil {
+		return err
+	}
+	w.mc.bump()
+	sg, err := w.data.ShardGroupByTimestampAndEngineType(c14DB, c14RP, ts, config.TSSTORE)
+	if err != nil {
+		return err
+	}
+	if sg == nil || len(sg.Shards) != 1 {
+		return fmt.Errorf("no shard group for %s after CreateShardGroup", c14Rel(w.t0, ts))
+	}
+	if !sg.StartTime.Equal(start) || !sg.EndTime.Equal(end) {
+		w.setFail("shard_group_mapping_mismatch", fmt.Sprintf("timestamp %s mapped to group [%s,%s), expected [%s,%s)",
+			c14Rel(w.t0, ts), c14Rel(w.t0, sg.StartTime), c14Rel(w.t0, sg.EndTime), c14Rel(w.t0, start), c14Rel(w.t0, end)))
+		return nil
+	}
+	if g != nil && g.SGID != sg.ID {
+		w.setFail("shard_group_mapping_mismatch", fmt.Sprintf("timestamp %s: catalogue routes to group %d, the live group of the range is %s",
+			c14Rel(w.t0, ts), sg.ID, g.name(w)))
+		return nil
+	}
+	if g == nil {
+		for _, x := range w.groups {
+			if x.SGID == sg.ID {
+				w.setFail("shard_group_mapping_mismatch", fmt.Sprintf("timestamp %s routed to group %s whose deletion was already observed",
+					c14Rel(w.t0, ts), x.name(w)))
+				return nil
+			}
+		}
+		g = &c14Group{Start: start, End: end, Gen: gen, SGID: sg.ID, ShardID: sg.Shards[0].ID, IndexID: sg.Shards[0].IndexID,
+			Points: map[int64]bool{}}
+		for _, ig := range w.rp().IndexGroups {
+			for _, ii := range ig.Indexes {
+				if ii.ID == g.IndexID {
+					g.IGID = ig.ID
+				}
+			}
+		}
+		w.groups = append(w.groups, g)
+	}
+	if !load {
+		return nil
+	}
+	if err := w.storeWrite(g.ShardID, ts.UnixNano()); err != nil {
+		return err
+	}
+	sh := w.dbpt().Shard(g.ShardID)
+	if sh == nil {
+		return fmt.Errorf("shard %d not in the engine after an acknowledged write", g.ShardID)
+	}
+	g.Loaded = true
+	g.DataPath = sh.GetDataPath()
+	g.WalPath = sh.GetWalPath()
+	g.Points[ts.UnixNano()] = true
+	c14IndexBarrier(sh)
+	return nil
+}
+
+func c14IndexBarrier(sh Shard) {
+	if ib := sh.GetIndexBuilder(); ib != nil {
+		if idx, ok := ib.GetPrimaryIndex().(*tsi.MergeSetIndex); ok {
+			idx.DebugFlush()
+		}
+	}
+}
+
+func (w *c14World) setFail(kind, detail string) {
+	if w.fail == nil {
+		w.fail = &c14Fail{Kind: kind, Key: w.root + ": " + strings.Join(w.hist, " "), Detail: detail}
+	}
+}
+
+// ---- concurrent writers ("being written" while the retention run executes) -------------------------
+
+const c14WriterN = 6
+
+// startWriters: one goroutine per shard that is loaded in the engine writes c14WriterN new points
+// into that shard (engine WriteRows, the path of an already created shard) while the run executes.
+func (w *c14World) startWriters() {
+	w.wacks = map[uint64][]int64{}
+	w.werrs = map[uint64]int{}
+	for _, g := range w.groups {
+		if !g.Loaded || g.Gone || w.dbpt().Shard(g.ShardID) == nil {
+			continue
+		}
+		w.wseq++
+		base := g.Start.UnixNano() + int64(time.Minute) + w.wseq*1000
+		sid := g.ShardID
+		w.wwg.Add(1)
+		go func() {
+			defer w.wwg.Done()
+			defer func() {
+				if p := recover(); p != nil {
+					w.wmu.Lock()
+					w.wpanics = append(w.wpanics, fmt.Sprintf("writer of shard %d: %v\n%s", sid, p, debug.Stack()))
+					w.wmu.Unlock()
+				}
+			}()
+			for k := 0; k < c14WriterN; k++ {
+				ts := base + int64(k)
+				rows, buf := c14Rows(w.mstName, ts)
+				err := w.eng.WriteRows(c14DB, c14RP, 0, sid, rows, buf, nil)
+				w.wmu.Lock()
+				if err == nil {
+					w.wacks[sid] = append(w.wacks[sid], ts)
+				} else {
+					w.werrs[sid]++
+				}
+				w.wmu.Unlock()
+				if err != nil {
+					return
+				}
+			}
+		}()
+	}
+}
+
+// ---- operations -----------------------------------------------------------------------------------
+
+var c14Ops = []string{"T-1", "T0", "T+1", "TI", "H", "Hw", "A0", "A1/2", "A1", "A2", "Wn", "We", "Wo", "Cn", "Ce"}
+
+func c14OpIndex(name string) int {
+	for i, n := range c14Ops {
+		if n == name {
+			return i
+		}
+	}
+	return -1
+}
+
+// oldestLive: the oldest group the model considers alive (the T ops aim at its expiry instant).
+func (w *c14World) oldestLive() *c14Group {
+	var o *c14Group
+	for _, g := range w.groups {
+		if g.Doomed || g.Gone {
+			continue
+		}
+		if o == nil || g.End.Before(o.End) {
+			o = g
+		}
+	}
+	return o
+}
+
+func (w *c14World) sleepUntil(t time.Time) bool {
+	d := t.Sub(time.Now())
+	if d <= 0 {
+		return false
+	}
+	time.Sleep(d)
+	return true
+}
+
+// apply executes one operation; returns false if it is not applicable in this state (treated as a no-op).
+func (w *c14World) apply(op string, rep *kit.Report) bool {
+	now := time.Now()
+	switch op {
+	case "T-1", "T0", "T+1":
+		g := w.oldestLive()
+		if g == nil || w.dm == 0 {
+			return false
+		}
+		e := g.End.Add(w.dm)
+		off := map[string]time.Duration{"T-1": -1, "T0": 0, "T+1": 1}[op]
+		return w.sleepUntil(e.Add(off))
+	case "TI":
+		time.Sleep(c14Interval)
+		return true
+	case "H", "Hw":
+		if op == "Hw" {
+			any := false
+			for _, g := range w.groups {
+				if g.Loaded && !g.Gone && w.dbpt().Shard(g.ShardID) != nil {
+					any = true
+				}
+			}
+			if !any {
+				return false // no open shard: identical to H
+			}
+		}
+		w.retentionRun(op == "Hw", rep)
+		return true
+	case "A0", "A1/2", "A1", "A2":
+		d := c14Durs[map[string]int{"A0": 0, "A1/2": 1, "A1": 2, "A2": 3}[op]]
+		if d == w.dm {
+			return false
+		}
+		err := w.data.UpdateRetentionPolicy(c14DB, c14RP, &meta.RetentionPolicyUpdate{Duration: &d}, false)
+		if err != nil {
+			rep.Count("alter_rejected", 1)
+			if d == 0 || d >= c14G {
+				rep.Count("alter_rejected_unexpectedly", 1)
+			}
+			return true // state unchanged -> recognised as a no-op by the digest
+		}
+		w.mc.bump()
+		if d != 0 && d < c14G {
+			rep.Count("alter_below_group_duration_accepted", 1)
+		}
+		w.dm = d
+		w.durLog = append(w.durLog, d)
+		return true
+	case "Wn", "Cn":
+		if err := w.write(now, op == "Wn"); err != nil {
+			w.setFail("write_error", fmt.Sprintf("%s at %s: %v", op, c14Rel(w.t0, now), err))
+		}
+		return true
+	case "We", "Ce":
+		if w.dm == 0 {
+			return false
+		}
+		ts := now.Add(-w.dm) // the oldest timestamp the write path accepts (>= now - duration)
+		if err := w.write(ts, op == "We"); err != nil {
+			w.setFail("write_error", fmt.Sprintf("%s at %s: %v", op, c14Rel(w.t0, ts), err))
+		}
+		return true
+	case "Wo":
+		if w.dm == 0 {
+			return false
+		}
+		ts := now.Add(-w.dm - c14G) // outside the window: its whole group may already be expired
+		if err := w.write(ts, true); err != nil {
+			w.setFail("write_error", fmt.Sprintf("%s at %s: %v", op, c14Rel(w.t0, ts), err))
+		}
+		return true
+	}
+	panic("C14 harness: unknown op " + op)
+}
+
+// retentionRun calls the real Service.handle and evaluates the run.
+func (w *c14World) retentionRun(withWriters bool, rep *kit.Report) {
+	w.rec.reset(withWriters)
+	before := time.Now()
+	dRun := w.dm
+	var panicked string
+	func() {
+		defer func() {
+			if p := recover(); p != nil {
+				panicked = fmt.Sprintf("%v\n%s", p, debug.Stack())
+			}
+		}()
+		w.handle()
+	}()
+	if withWriters {
+		w.wwg.Wait()
+	}
+	after := time.Now()
+	w.runs++
+	if panicked != "" {
+		w.setFail("panic_in_retention_run", panicked)
+		return
+	}
+	if len(w.wpanics) > 0 {
+		w.setFail("panic_writing_during_retention_run", strings.Join(w.wpanics, "\n"))
+		return
+	}
+	tRun := before
+	if w.rec.called {
+		tRun = w.rec.expiredAt
+		if !tRun.Equal(before) {
+			rep.Count("runs_clock_moved_before_decision", 1)
+		}
+	} else {
+		rep.Count("runs_without_expiry_evaluation", 1)
+	}
+	if !after.Equal(before) {
+		rep.Count("runs_clock_moved", 1)
+		rep.Max("max_run_clock_drift_ms", int64(after.Sub(before)/time.Millisecond))
+	}
+	w.lastRun = fmt.Sprintf("run#%d at %s (returned at %s) duration in force %s; ExpiredShards -> %v (not loaded: %v), ExpiredIndexes -> %v, deletions %v, durations pushed %v",
+		w.runs, c14Rel(w.t0, tRun), c14Rel(w.t0, after), dRun, w.rec.expired, w.rec.nilIDs, w.rec.idxExpired, w.fmtDels(), w.rec.seenDur)
+	// model: which groups are expired at this run
+	inS := map[*c14Group]bool{}
+	for _, g := range w.groups {
+		if g.Gone {
+			continue
+		}
+		if dRun != 0 && g.End.Add(dRun).Before(tRun) { // end + duration < now, strictly
+			inS[g] = true
+			g.ExpiredRuns++
+		} else if !g.Doomed {
+			g.ExpiredRuns = 0
+		}
+	}
+	w.observe(true, inS, tRun, dRun, rep)
+	// acknowledged concurrent writes into groups that survived the run are points of the model
+	if withWriters && w.fail == nil {
+		n := 0
+		for _, g := range w.groups {
+			n += len(w.wacks[g.ShardID])
+			if g.Doomed || g.Gone {
+				continue
+			}
+			for _, ts := range w.wacks[g.ShardID] {
+				g.Points[ts] = true
+			}
+			if k := w.werrs[g.ShardID]; k > 0 {
+				w.setFail("write_refused_on_unexpired_shard_during_retention_run", fmt.Sprintf("%s: %d concurrent writes failed; %s", g.name(w), k, w.lastRun))
+				return
+			}
+			if sh := w.dbpt().Shard(g.ShardID); sh != nil {
+				c14IndexBarrier(sh)
+			}
+		}
+		rep.Count("hw_concurrent_writes_acked", int64(n))
+		w.observe(false, nil, time.Time{}, 0, rep) // the concurrent points must be readable too
+	}
+}
+
+func (w *c14World) fmtDels() string {
+	var s []string
+	for _, d := range w.rec.dels {
+		e := "ok"
+		if d.Err != "" {
+			e = d.Err
+		}
+		s = append(s, fmt.Sprintf("%s %d at %s: %s", d.Kind, d.ID, c14Rel(w.t0, d.At), e))
+	}
+	return "[" + strings.Join(s, "; ") + "]"
+}
+
+// ---- observation + oracle -------------------------------------------------------------------------
+
+type c14Parts struct {
+	CatLive    bool // catalogue: group present, DeletedAt zero, shard not marked
+	CatPresent bool // catalogue: group entry present at all
+	Eng        bool // engine: shard in the partition's shard map
+	Data       bool // storage: data directory exists
+	Wal        bool // storage: wal directory exists
+	Index      bool // engine: index builder of the shard present
+	IdxCatLive bool // catalogue: index group present and not marked deleted
+}
+
+func c14Exists(p string) bool {
+	if p == "" {
+		return false
+	}
+	_, err := os.Stat(p)
+	return err == nil
+}
+
+func (w *c14World) parts(g *c14Group) c14Parts {
+	var p c14Parts
+	rp := w.rp()
+	for i := range rp.ShardGroups {
+		sg := &rp.ShardGroups[i]
+		if sg.ID != g.SGID {
+			continue
+		}
+		p.CatPresent = true
+		marked := false
+		for _, sh := range sg.Shards {
+			if sh.MarkDelete {
+				marked = true
+			}
+		}
+		p.CatLive = sg.DeletedAt.IsZero() && !marked
+	}
+	for i := range rp.IndexGroups {
+		ig := &rp.IndexGroups[i]
+		if ig.ID != g.IGID {
+			continue
+		}
+		marked := false
+		for _, ii := range ig.Indexes {
+			if ii.ID == g.IndexID && ii.MarkDelete {
+				marked = true
+			}
+		}
+		p.IdxCatLive = ig.DeletedAt.IsZero() && !marked
+	}
+	pt := w.dbpt()
+	pt.mu.RLock()
+	_, p.Eng = pt.shards[g.ShardID]
+	_, p.Index = pt.indexBuilder[g.IndexID]
+	pt.mu.RUnlock()
+	p.Data = c14Exists(g.DataPath)
+	p.Wal = c14Exists(g.WalPath)
+	return p
+}
+
+// observe runs the oracle after a step. inRun: the step was a retention run; inS: groups the model
+// found expired at that run (instant tRun, duration dRun).
+func (w *c14World) observe(inRun bool, inS map[*c14Group]bool, tRun time.Time, dRun time.Duration, rep *kit.Report) {
+	// what the user was told about the duration must be what the catalogue holds
+	if cd := w.rp().Duration; cd != w.dm {
+		w.setFail("alter_not_applied", fmt.Sprintf("the last successful ALTER set duration %s, the catalogue holds %s", w.dm, cd))
+		return
+	}
+	for _, g := range w.groups {
+		if g.Gone {
+			continue
+		}
+		p := w.parts(g)
+		intact := p.CatLive && (!g.Loaded || (p.Eng && p.Data))
+		anything := p.CatPresent || (g.Loaded && (p.Eng || p.Data || p.Wal))
+		if !intact && !g.Doomed {
+			if inRun && inS[g] {
+				g.Doomed = true // deletion started in a run at which the group was expired
+			} else {
+				w.setFail(w.classify(g, inRun, tRun, dRun), fmt.Sprintf("%s lost %s; %s", g.name(w), c14Missing(g, p), w.explain(g, inRun, tRun, dRun)))
+				return
+			}
+		}
+		if g.Doomed && !anything {
+			g.Gone = true
+			continue
+		}
+		if inRun && g.ExpiredRuns >= 2 && anything {
+			w.setFail("expired_shard_not_removed", fmt.Sprintf("%s was expired at %d consecutive retention runs and is still present: %s; %s",
+				g.name(w), g.ExpiredRuns, c14Present(g, p), w.lastRun))
+			return
+		}
+		if g.Doomed {
+			continue
+		}
+		// alive: every acknowledged point must be readable, through the shard's index
+		if g.Loaded {
+			if !p.Index || !p.IdxCatLive {
+				w.setFail("index_of_unexpired_shard_deleted", fmt.Sprintf("%s: index %d (group %d) engine=%v catalogue-live=%v; %s",
+					g.name(w), g.IndexID, g.IGID, p.Index, p.IdxCatLive, w.lastRun))
+				return
+			}
+			if miss, err := w.unreadable(g); err != nil {
+				w.setFail("read_error", fmt.Sprintf("%s: %v", g.name(w), err))
+				return
+			} else if len(miss) > 0 {
+				w.setFail("unexpired_point_unreadable", fmt.Sprintf("%s: %d of %d acknowledged points are not returned (first: %s); duration in force %s, now %s; %s",
+					g.name(w), len(miss), len(g.Points), c14Rel(w.t0, time.Unix(0, miss[0])), w.dm, c14Rel(w.t0, time.Now()), w.lastRun))
+				return
+			}
+			rep.Count("reads", 1)
+		}
+	}
+}
+
+func c14Missing(g *c14Group, p c14Parts) string {
+	var s []string
+	if !p.CatPresent {
+		s = append(s, "catalogue entry (pruned)")
+	} else if !p.CatLive {
+		s = append(s, "catalogue liveness (DeletedAt/MarkDelete set)")
+	}
+	if g.Loaded {
+		if !p.Eng {
+			s = append(s, "engine shard")
+		}
+		if !p.Data {
+			s = append(s, "data directory")
+		}
+	}
+	return strings.Join(s, " + ")
+}
+
+func c14Present(g *c14Group, p c14Parts) string {
+	var s []string
+	if p.CatPresent {
+		if p.CatLive {
+			s = append(s, "catalogue entry (live)")
+		} else {
+			s = append(s, "catalogue entry (marked deleted)")
+		}
+	}
+	if g.Loaded {
+		if p.Eng {
+			s = append(s, "engine shard")
+		}
+		if p.Data {
+			s = append(s, "data directory")
+		}
+		if p.Wal {
+			s = append(s, "wal directory")
+		}
+	}
+	return strings.Join(s, " + ")
+}
+
+// classify names the defect class of an illegitimate deletion.
+func (w *c14World) classify(g *c14Group, inRun bool, tRun time.Time, dRun time.Duration) string {
+	if !inRun {
+		return "deleted_outside_retention_run"
+	}
+	if dRun == 0 {
+		return "unlimited_policy_lost_data"
+	}
+	e := g.End.Add(dRun)
+	if e.Equal(tRun) {
+		return "deleted_at_exact_expiry_instant"
+	}
+	for _, d := range w.durLog[:len(w.durLog)-1] {
+		if d != 0 && d != dRun && g.End.Add(d).Before(tRun) {
+			return "deleted_under_superseded_duration"
+		}
+	}
+	return "unexpired_shard_deleted"
+}
+
+func (w *c14World) explain(g *c14Group, inRun bool, tRun time.Time, dRun time.Duration) string {
+	if !inRun {
+		return "the step was not a retention run"
+	}
+	return fmt.Sprintf("group end %s + duration in force %s = %s, run decided at %s (deletable only strictly after); %s",
+		c14Rel(w.t0, g.End), dRun, c14Rel(w.t0, g.End.Add(dRun)), c14Rel(w.t0, tRun), w.lastRun)
+}
+
+// unreadable dumps the shard through CreateCursor (production read path of a shard) and returns the
+// acknowledged points that are missing.
+func (w *c14World) unreadable(g *c14Group) ([]int64, error) {
+	sh := w.dbpt().Shard(g.ShardID)
+	if sh == nil {
+		return nil, fmt.Errorf("shard not in engine")
+	}
+	s, ok := sh.(*shard)
+	if !ok {
+		return nil, fmt.Errorf("unexpected shard type %T", sh)
+	}
+	v := &vShard{sh: s}
+	q := vQuery{Mst: w.mstName, Fields: []influxql.VarRef{{Val: "f", Type: influxql.Float}}, Ascending: true,
+		Start: influxql.MinTime, End: influxql.MaxTime}
+	got, _, err := v.Dump(q)
+	if err != nil {
+		return nil, err
+	}
+	have := map[int64]bool{}
+	for k := range got {
+		have[k.T] = true
+	}
+	var miss []int64
+	for ts := range g.Points {
+		if !have[ts] {
+			miss = append(miss, ts)
+		}
+	}
+	sort.Slice(miss, func(i, j int) bool { return miss[i] < miss[j] })
+	return miss, nil
+}
+
+// ---- state digests --------------------------------------------------------------------------------
+
+// digest: the complete harness-visible state (exact clock offset, catalogue, engine shard/index sets
+// with the durations they hold, storage directories, model); used for no-op detection.
+// abstract: the same with the clock reduced to its position relative to the expiry instants of the
+// live groups (the reported state space).
+func (w *c14World) digest() (exact, abstract string) {
+	var b strings.Builder
+	rp := w.rp()
+	fmt.Fprintf(&b, "D=%s;", rp.Duration)
+	for i := range rp.ShardGroups {
+		sg := &rp.ShardGroups[i]
+		fmt.Fprintf(&b, "sg%d[%s,%s)del=%v{", sg.ID, c14Rel(w.t0, sg.StartTime), c14Rel(w.t0, sg.EndTime), !sg.DeletedAt.IsZero())
+		for _, sh := range sg.Shards {
+			fmt.Fprintf(&b, "sh%d idx%d md=%v,", sh.ID, sh.IndexID, sh.MarkDelete)
+		}
+		b.WriteString("}")
+	}
+	for i := range rp.IndexGroups {
+		ig := &rp.IndexGroups[i]
+		fmt.Fprintf(&b, "ig%d[%s,%s)del=%v{", ig.ID, c14Rel(w.t0, ig.StartTime), c14Rel(w.t0, ig.EndTime), !ig.DeletedAt.IsZero())
+		for _, ii := range ig.Indexes {
+			fmt.Fprintf(&b, "i%d md=%v,", ii.ID, ii.MarkDelete)
+		}
+		b.WriteString("}")
+	}
+	pt := w.dbpt()
+	pt.mu.RLock()
+	var sids, iids []uint64
+	for id := range pt.shards {
+		sids = append(sids, id)
+	}
+	for id := range pt.indexBuilder {
+		iids = append(iids, id)
+	}
+	sort.Slice(sids, func(i, j int) bool { return sids[i] < sids[j] })
+	sort.Slice(iids, func(i, j int) bool { return iids[i] < iids[j] })
+	b.WriteString("eng{")
+	for _, id := range sids {
+		fmt.Fprintf(&b, "sh%d d=%s,", id, pt.shards[id].GetDuration().Duration)
+	}
+	b.WriteString("}idx{")
+	for _, id := range iids {
+		fmt.Fprintf(&b, "i%d,", id)
+	}
+	b.WriteString("}")
+	pt.mu.RUnlock()
+	b.WriteString("fs{")
+	for _, g := range w.groups {
+		if g.Loaded {
+			fmt.Fprintf(&b, "sh%d:%v%v,", g.ShardID, c14Exists(g.DataPath), c14Exists(g.WalPath))
+		}
+	}
+	b.WriteString("}model{")
+	for _, g := range w.groups {
+		fmt.Fprintf(&b, "%s L=%v doomed=%v gone=%v runs=%d pts=%d;", g.name(w), g.Loaded, g.Doomed, g.Gone, g.ExpiredRuns, len(g.Points))
+	}
+	fmt.Fprintf(&b, "}dm=%s", w.dm)
+	body := b.String()
+	now := time.Now()
+	exact = fmt.Sprintf("now=%s;%s", c14Rel(w.t0, now), body)
+	// clock bucket: for every live group and every non-zero duration of the menu, the relation of now to end+d
+	var cb strings.Builder
+	for _, g := range w.groups {
+		if g.Gone {
+			continue
+		}
+		for _, d := range c14Durs[1:] {
+			e := g.End.Add(d)
+			var c byte
+			switch diff := now.Sub(e); {
+			case diff < -1:
+				c = '<'
+			case diff == -1:
+				c = '-'
+			case diff == 0:
+				c = '='
+			case diff == 1:
+				c = '+'
+			default:
+				c = '>'
+			}
+			cb.WriteByte(c)
+		}
+		cb.WriteByte('|')
+	}
+	abstract = "clock=" + cb.String() + ";" + body
+	return exact, abstract
+}
+
+// ---- running one history --------------------------------------------------------------------------
+
+type c14Case struct {
+	D0   string   `json:"d0"`
+	Init string   `json:"init"`
+	Ops  []string `json:"ops"`
+}
+
+func (c c14Case) key() string { return c.D0 + "/" + c.Init + ": " + strings.Join(c.Ops, " ") }
+
+// doStep: apply + oracle + digests. Returns changed=false for a no-op (state digest unchanged).
+func (w *c14World) doStep(op string, rep *kit.Report) (changed bool) {
+	before, _ := w.digest()
+	w.hist = append(w.hist, op)
+	applicable := w.apply(op, rep)
+	if !applicable {
+		w.hist = w.hist[:len(w.hist)-1]
+		return false
+	}
+	if w.fail == nil && op != "H" && op != "Hw" {
+		w.observe(false, nil, time.Time{}, 0, rep)
+	}
+	if w.fail != nil {
+		return true
+	}
+	after, _ := w.digest()
+	if after == before {
+		w.hist = w.hist[:len(w.hist)-1]
+		return false
+	}
+	return true
+}
+
+// c14RunCase executes one complete case from scratch (replay, determinism re-check). Returns the failure.
+func c14RunCase(dir string, c c14Case, rep *kit.Report) (*c14Fail, error) {
+	w, err := c14NewWorld(dir, c14DurIndex(c.D0), c.Init)
+	defer func() {
+		if w != nil {
+			w.close()
+		}
+	}()
+	if err != nil {
+		return nil, err
+	}
+	w.observe(false, nil, time.Time{}, 0, rep)
+	for _, op := range c.Ops {
+		if w.fail != nil {
+			break
+		}
+		w.doStep(op, rep)
+	}
+	return w.fail, nil
+}
+
+// ---- explorer -------------------------------------------------------------------------------------
+
+type c14Explorer struct {
+	rep      *kit.Report
+	scratch  string
+	maxLen   int      // length of the longest history (the last operation is a retention run)
+	inner    []string // alphabet of the positions before the last
+	last     []string // alphabet of the last position
+	d0       int
+	init     string
+	failed   map[string]bool
+	itemBase int
+	stop     bool
+}
+
+// replay builds a fresh world and re-executes path (already validated steps).
+func (x *c14Explorer) replay(path []string) *c14World {
+	x.rep.Count("executions", 1)
+	w, err := c14NewWorld(filepath.Join(x.scratch, "h"), x.d0, x.init)
+	if err != nil {
+		panic(fmt.Sprintf("C14 harness: cannot build world %s/%s: %v", c14DurNames[x.d0], x.init, err))
+	}
+	w.observe(false, nil, time.Time{}, 0, x.rep)
+	for _, op := range path {
+		if w.fail != nil {
+			break
+		}
+		if !w.doStep(op, x.rep) && w.fail == nil {
+			panic(fmt.Sprintf("C14 harness: nondeterministic replay: step %q of %s/%s %v was a state change before and is a no-op now",
+				op, c14DurNames[x.d0], x.init, path))
+		}
+	}
+	if w.fail != nil {
+		// a prefix that passed before fails now: flaky
+		panic(fmt.Sprintf("C14 harness: nondeterministic replay of %s/%s %v: %s: %s", c14DurNames[x.d0], x.init, path, w.fail.Kind, w.fail.Detail))
+	}
+	return w
+}
+
+// owns: the transition path+op is counted (and its state recorded) by exactly one worker.
+func (x *c14Explorer) owns(path []string, oi int) bool {
+	switch len(path) {
+	case 0:
+		return kit.Mine(x.itemBase + oi*len(c14Ops))
+	case 1:
+		return kit.Mine(x.itemBase + c14OpIndex(path[0])*len(c14Ops) + oi)
+	}
+	return true
+}
+
+// visit explores every extension of path; w is the live world after path (owned, closed here).
+func (x *c14Explorer) visit(w *c14World, path []string) {
+	alphabet := x.inner
+	if len(path) == x.maxLen-1 {
+		alphabet = x.last
+	}
+	for oi, op := range alphabet {
+		if x.stop || x.rep.Expired() {
+			x.stop = true
+			break
+		}
+		if len(path) == 1 && !x.owns(path, oi) {
+			continue // second operation: subtrees are dealt to the workers
+		}
+		counted := x.owns(path, oi)
+		if w == nil {
+			w = x.replay(path)
+		}
+		changed := w.doStep(op, x.rep)
+		if counted {
+			x.rep.Eval(1)
+			x.rep.Count("transitions", 1)
+			x.rep.Count("traces_validated_against_impl", 1)
+		}
+		if w.fail != nil {
+			x.report(w, append(append([]string{}, path...), op))
+			w.close()
+			w = nil
+			continue
+		}
+		if !changed {
+			if counted {
+				x.rep.Count("noop_pruned", 1)
+			}
+			continue // same state: the live world serves the next sibling
+		}
+		if counted {
+			if op == "H" || op == "Hw" {
+				x.rep.Count("retention_runs", 1)
+			}
+			_, abs := w.digest()
+			if x.rep.DistinctNontrivial(kit.Hash(w.root, abs)) {
+				x.rep.Sample(6, map[string]any{"root": w.root, "history": strings.Join(w.hist, " "), "state": abs, "last_run": w.lastRun})
+			}
+		}
+		x.rep.Max("max_history_len", int64(len(path)+1))
+		if len(path)+1 < x.maxLen {
+			x.visit(w, append(append([]string{}, path...), op))
+		} else {
+			x.rep.Count("complete_histories", 1)
+			w.close()
+		}
+		w = nil
+	}
+	if w != nil {
+		w.close()
+	}
+}
+
+// report re-executes a failing history 5 times from scratch; it is a violation only if it fails every time.
+func (x *c14Explorer) report(w *c14World, ops []string) {
+	c := c14Case{D0: c14DurNames[x.d0], Init: x.init, Ops: ops}
+	f := w.fail
+	sig := f.Kind + "|" + c.key()
+	if x.failed[sig] {
+		return
+	}
+	x.failed[sig] = true
+	same := 0
+	for i := 0; i < 5; i++ {
+		f2, err := c14RunCase(filepath.Join(x.scratch, "recheck"), c, x.rep)
+		if err != nil {
+			panic(fmt.Sprintf("C14 harness: re-execution of %s failed to start: %v", c.key(), err))
+		}
+		if f2 != nil && f2.Kind == f.Kind {
+			same++
+		}
+	}
+	if same != 5 {
+		panic(fmt.Sprintf("C14 harness: history %s failed with %s once and %d/5 times on re-execution: flaky, not reported as a violation\n%s",
+			c.key(), f.Kind, same, f.Detail))
+	}
+	x.rep.Violation(f.Kind, c.key(), f.Detail, c)
+}
+
+// ---- part B: the expiry decision table ---------------------------------------------------------------
+
+// c14Table checks Engine.ExpiredShards directly (open shard: shard.IsExpired; shard not loaded:
+// nilShardIsExpired) for every duration of {0, 1ns, G/2, G, 2G, 3G} pushed through the real
+// UpdateShardDurationInfo, at every clock position end+d-1ns, end+d, end+d+1ns (the catalogue refuses
+// durations below G, the engine must still decide them correctly).
+func c14Table(rep *kit.Report, scratch string) {
+	durs := []time.Duration{0, 1, c14G / 2, c14G, 2 * c14G, 3 * c14G}
+	dir := filepath.Join(scratch, "table")
+	w, err := c14NewWorld(dir, 0, "open")
+	if err != nil {
+		panic(fmt.Sprintf("C14 harness: table world: %v", err))
+	}
+	defer w.close()
+	// a second engine on the same catalogue that has not loaded the shard
+	eng2 := c14NewEngine(filepath.Join(scratch, "table2"), w.data)
+	defer func() { _ = eng2.Close(); _ = os.RemoveAll(filepath.Join(scratch, "table2")) }()
+	g := w.groups[0]
+	var instants []time.Time
+	for _, d := range durs[1:] {
+		for _, off := range []time.Duration{-1, 0, 1} {
+			instants = append(instants, g.End.Add(d+off))
+		}
+	}
+	instants = append(instants, g.End.Add(-1), g.End.Add(6*c14G))
+	sort.Slice(instants, func(i, j int) bool { return instants[i].Before(instants[j]) })
+	for _, at := range instants {
+		w.sleepUntil(at)
+		now := time.Now()
+		for _, d := range durs {
+			want := d != 0 && g.End.Add(d).Before(now)
+			for _, mode := range []string{"open", "not-loaded"} {
+				e := w.eng
+				if mode == "not-loaded" {
+					e = eng2
+				}
+				info := meta.ShardDurationInfo{
+					Ident: meta.ShardIdentifier{ShardID: g.ShardID, ShardGroupID: g.SGID, Policy: c14RP, OwnerDb: c14DB, OwnerPt: 0,
+						StartTime: g.Start, EndTime: g.End},
+					DurationInfo: meta.DurationDescriptor{Duration: d, Tier: util.Hot},
+				}
+				nilMap := map[uint64]*meta.ShardDurationInfo{}
+				if err := e.UpdateShardDurationInfo(&info, &nilMap); err != nil {
+					panic(fmt.Sprintf("C14 harness: UpdateShardDurationInfo: %v", err))
+				}
+				if (mode == "not-loaded") != (len(nilMap) == 1) {
+					panic(fmt.Sprintf("C14 harness: table mode %s but nil map has %d entries", mode, len(nilMap)))
+				}
+				res := e.ExpiredShards(&nilMap)
+				got := false
+				for _, id := range res {
+					if id.ShardID == g.ShardID {
+						got = true
+					}
+				}
+				rep.Eval(1)
+				rep.Count("table_decisions", 1)
+				rep.DistinctNontrivial(kit.Hash("table", mode, d.String(), c14Rel(w.t0, now)))
+				if got != want {
+					kind := "expiry_decision_mismatch"
+					switch {
+					case d == 0:
+						kind = "unlimited_policy_lost_data"
+					case got && g.End.Add(d).Equal(now):
+						kind = "deleted_at_exact_expiry_instant"
+					case got:
+						kind = "unexpired_shard_deleted"
+					case !got:
+						kind = "expired_shard_not_removed"
+					}
+					rep.Violation(kind, fmt.Sprintf("table: %s shard, duration %s, now = end+duration%+dns", mode, d, int64(now.Sub(g.End.Add(d)))),
+						fmt.Sprintf("ExpiredShards reports expired=%v, specification (duration != 0 and end+duration < now) says %v; end=%s now=%s",
+							got, want, c14Rel(w.t0, g.End), c14Rel(w.t0, now)), c14Case{D0: "table"})
+				}
+			}
+		}
+	}
+}
+
+// ---- test entry -----------------------------------------------------------------------------------
 
 func TestVerifC14(t *testing.T) {
 	rep := kit.NewReport("C14")
 	meta.DataLogger = zap.NewNop()
+	logger.SetLogger(zap.NewNop())
+	log = logger.NewLogger(errno.ModuleStorageEngine).SetZapLogger(zap.NewNop())
+	stat.StoreTaskInstance = stat.NewStoreTaskDuration(false)
+	reportLoadFrequency = 20 * time.Minute // a once-per-second load report of every partition is not part of the property
 	synctest.Test(t, func(t *testing.T) {
-		c14Probe(t, rep)
+		if pf := kit.Getenv("VERIF_CPUPROF", ""); pf != "" { // development aid
+			if f, err := os.Create(pf); err == nil {
+				_ = pprof.StartCPUProfile(f)
+			}
+		}
+		c14Main(t, rep)
+		pprof.StopCPUProfile()
 		rep.Save()
-		os.Exit(0)
+		os.Exit(0) // one bubble per process (package-global compaction worker); leftover goroutines sit in the bubble
 	})
 }
 
-var c14prof *os.File
-
-func c14Probe(t *testing.T, rep *kit.Report) {
-	c14prof, _ = os.Create("/tmp/c14probe/cpu.prof")
+func c14Main(t *testing.T, rep *kit.Report) {
+	// The package-global compaction worker was started at package init, outside the bubble, and would
+	// touch the shards of the bubble from there (fatal in synctest). A worker started here, inside the
+	// bubble, does the same job on the virtual clock; the old one keeps running with no shards.
+	compWorker = NewCompactor()
 	scratch := kit.Scratch()
-	reportLoadFrequency = 20 * time.Minute
-	for it := 0; it < 12; it++ {
-		r0 := c14Real()
-		data, err := c14NewData(2 * c14G)
+	if kit.ReplayPath() != "" {
+		var c c14Case
+		if err := kit.LoadReplay(&c); err != nil {
+			t.Fatal(err)
+		}
+		if c.D0 == "table" {
+			c14Table(rep, scratch)
+			return
+		}
+		f, err := c14RunCase(filepath.Join(scratch, "replay"), c, rep)
 		if err != nil {
 			t.Fatal(err)
 		}
-		dir := vMkdir(scratch, fmt.Sprintf("h%d", it))
-		eng := c14NewEngine(dir, data)
-		mc := &c14Meta{data: data}
-		handle := VerifC14NewService(mc, eng, 30*time.Minute)
-		fmt.Println("setup", c14Real()-r0, "now", time.Now().UTC())
-		r9 := c14Real()
-		time.Sleep(3 * c14G)
-		fmt.Println("sleep-empty 3G", c14Real()-r9)
-		now := time.Now()
-		for k := 0; k < 2; k++ {
-			ts := now.Add(time.Duration(k) * c14G)
-			if err := data.CreateShardGroup(c14DB, c14RP, ts, util.Hot, config.TSSTORE, 0); err != nil {
-				t.Fatal(err)
-			}
-			sg, _ := data.ShardGroupByTimestampAndEngineType(c14DB, c14RP, ts, config.TSSTORE)
-			rp, _ := data.RetentionPolicy(c14DB, c14RP)
-			sid := sg.Shards[0].ID
-			tri := rp.TimeRangeInfo(sid)
-			msti, _ := data.Measurement(c14DB, c14RP, c14Mst)
-			r1 := c14Real()
-			if err := eng.CreateShard(c14DB, c14RP, 0, sid, tri, msti); err != nil {
-				t.Fatal(err)
-			}
-			row := influx.Row{Name: msti.Name, Timestamp: ts.UnixNano()}
-			row.Fields = append(row.Fields, influx.Field{Key: "f", Type: influx.Field_Type_Float, NumValue: 1.5})
-			row.Tags = influx.PointTags{{Key: "host", Value: "a"}}
-			row.UnmarshalIndexKeys(nil)
-			row.UnmarshalShardKeyByTag(nil)
-			rows := []influx.Row{row}
-			buf, _ := influx.FastMarshalMultiRows(nil, rows)
-			if err := eng.WriteRows(c14DB, c14RP, 0, sid, rows, buf, nil); err != nil {
-				t.Fatal(err)
-			}
-			fmt.Println("shard create+write", sid, c14Real()-r1, sg.StartTime, sg.EndTime)
+		rep.Eval(int64(len(c.Ops)))
+		if f != nil {
+			rep.Violation(f.Kind, c.key(), f.Detail, c)
 		}
-		if it == 0 {
-			buf := make([]byte, 1<<22)
-			n := runtime.Stack(buf, true)
-			_ = os.WriteFile("/tmp/c14probe/stacks.txt", buf[:n], 0o644)
-		}
-		r2 := c14Real()
-		handle()
-		fmt.Println("handle#1", c14Real()-r2, "now", time.Now().UTC(), "shards", len(eng.DBPartitions[c14DB][0].shards))
-		r2 = c14Real()
-		time.Sleep(1)
-		fmt.Println("sleep 1ns", c14Real()-r2)
-		r2 = c14Real()
-		time.Sleep(3*c14G + 1)
-		fmt.Println("sleep 3G+1", c14Real()-r2, "now", time.Now().UTC())
-		r2 = c14Real()
-		if it%2 == 1 {
-			_ = pprof.StartCPUProfile(c14prof)
-		}
-		handle()
-		if it%2 == 1 {
-			pprof.StopCPUProfile()
-		}
-		fmt.Println("handle#2", c14Real()-r2, "now", time.Now().UTC(), "shards", len(eng.DBPartitions[c14DB][0].shards))
-		rpi, _ := data.RetentionPolicy(c14DB, c14RP)
-		fmt.Printf("groups %+v\n", rpi.ShardGroups)
-		r2 = c14Real()
-		if err := eng.Close(); err != nil {
-			t.Fatal(err)
-		}
-		fmt.Println("close", c14Real()-r2, "goroutines", runtime.NumGoroutine())
+		return
 	}
-}
-
-// c14Real is the real (monotonic, outside the bubble) time in seconds: diagnostics only.
-func c14Real() float64 {
-	var ts unix.Timespec
-	_ = unix.ClockGettime(unix.CLOCK_MONOTONIC, &ts)
-	return float64(ts.Sec) + float64(ts.Nsec)/1e9
+	maxLen := 4
+	if kit.Thorough() {
+		maxLen = 5
+	}
+	if d := kit.Getenv("VERIF_DEPTH", ""); d != "" {
+		fmt.Sscanf(d, "%d", &maxLen)
+	}
+	rep.Count("max_depth", 0)
+	rep.Max("max_depth", int64(maxLen))
+	rep.Note("alphabet=%v; histories: every sequence of <= %d operations followed by a retention run (H or Hw), oracle after every step; roots: initial duration {G,2G,0} x first shard {open, not loaded}; G=%s interval=%s",
+		c14Ops, maxLen-1, c14G, c14Interval)
+	if kit.Mine(0) {
+		c14Table(rep, scratch)
+	}
+	// rejected root: a policy shorter than its shard-group duration cannot be created
+	if kit.Mine(1) {
+		if _, err := c14NewData(c14G / 2); err == nil {
+			rep.Count("create_below_group_duration_accepted", 1)
+		} else {
+			rep.Count("create_below_group_duration_rejected", 1)
+		}
+		rep.Eval(1)
+	}
+	item := 0
+	for _, d0 := range []int{2, 3, 0} {
+		for _, init := range []string{"open", "cat"} {
+			x := &c14Explorer{rep: rep, scratch: scratch, maxLen: maxLen, inner: c14Ops, last: []string{"H", "Hw"},
+				d0: d0, init: init, failed: map[string]bool{}, itemBase: item}
+			item += len(c14Ops) * len(c14Ops)
+			x.visit(nil, nil)
+			if x.stop {
+				return
+			}
+		}
+	}
 }
